@@ -221,7 +221,13 @@ def judgeC19 : P Verdict := do
         let pos := lines.findIdx (fun (l : String) => l.startsWith hdr)
         if pos ≥ lines.length then return .propfail s!"[C19] Display: node {nd.idx} has no header line"
         let want := ((List.range nd.children.length).zip nd.children).filterMap (fun (l, c) => c.map (fun i => s!"{l}->{i}"))
-        let next := lines.getD (pos + 1) ""
+        -- the node's own rows come first (one line per row of its map / predicate, the first on the header line)
+        let nrows := max 1 nd.val.rows.length
+        for k in List.range (nrows - 1) do
+          let l := lines.getD (pos + 1 + k) ""
+          if l.startsWith "children: " || l.startsWith "[" then
+            return .propfail s!"[C19] Display: node {nd.idx} holds {nrows} rows but only {k + 1} of them are printed (no ellipsis)"
+        let next := lines.getD (pos + nrows) ""
         if !want.isEmpty then
           let got := (((next.drop 10).toString.splitOn ", "))
           if !next.startsWith "children: " || got != want then
